@@ -432,6 +432,35 @@ def exec_group(case):
                 y2 = cut(real, x)
             if isinstance(y2, Raised) or not torch.equal(y, y2):
                 out.fail(f"auto-group/{case['kind']}/frozen-differs", f"per-output count {per}, group {gs}")
+        # the optimizer argument of a MODULE is subject to the same accept-or-reject rule: the wrong family is rejected with
+        # ValueError when the weights are quantized (forward / freeze), the right family is the one actually used
+        import torch.nn as nn
+
+        from optimum.quanto import AbsmaxOptimizer as _Abs, MaxOptimizer as _Max
+        from checks import models as _M
+
+        float_mod = nn.Linear(case["inf"], 3, bias=True) if case["kind"] == "linear" else nn.Conv2d(cin, groups * 2, (kh, kw), groups=groups, bias=True)
+        qcls = QLinear if case["kind"] == "linear" else QConv2d
+        wrong = _Max() if qtype.bits == 8 else _Abs()
+        mw = cut(lambda: qcls.from_module(float_mod, weights=qtype, optimizer=wrong))
+        if not isinstance(mw, Raised):
+            with torch.no_grad():
+                yw = cut(mw, x)
+            if not (isinstance(yw, Raised) and yw.type == "ValueError"):
+                out.fail(f"auto-group/{case['kind']}/optimizer-wrong-family-accepted", f"{type(wrong).__name__} on {case['qtype']} weights: forward {'returned' if not isinstance(yw, Raised) else 'raised ' + yw.type} instead of raising ValueError")
+        elif mw.type != "ValueError":
+            out.fail(f"auto-group/{case['kind']}/optimizer-wrong-family/raises:{mw.type}", mw.text)
+        custom = _M.custom_optimizer(qtype)
+        mc = cut(lambda: qcls.from_module(float_mod, weights=qtype, optimizer=custom))
+        if isinstance(mc, Raised):
+            out.fail(f"auto-group/{case['kind']}/custom-optimizer/raises:{mc.type}", mc.text)
+        else:
+            from optimum.quanto import quantize_weight as _qw
+
+            want = cut(_qw, float_mod.weight.detach(), qtype, 0, mc.weight_group_size, custom)
+            got = cut(lambda: mc.qweight)
+            if isinstance(want, Raised) or isinstance(got, Raised) or not torch.equal(got._scale, want._scale):
+                out.fail(f"auto-group/{case['kind']}/custom-optimizer-not-used", f"the weights of a {qcls.__name__} created with a user optimizer are not the ones that optimizer gives ({case['qtype']})")
         # "can be quantized to any qtype": the module re-typed by loading a state_dict saved with another weight qtype gets the
         # automatic group size of THAT qtype, and runs
         def fresh(qt):
